@@ -13,7 +13,8 @@ CONSTANTS
   ActorOf <- MCActorOf
 INIT Init
 NEXT Next
-VIEW View
+VIEW noopView
+CONSTRAINT NoopBound1
 ACTION_CONSTRAINT Edge
 INVARIANTS TypeOK RefinesA MergeLaws Hybrid DupNoop StaleNoop ValidateOpOK
 PROPERTY WriteReplacesHeads
